@@ -51,6 +51,17 @@ b("C02-b2", "C02", PACK, "                self._pack_offset_largetable_offset + 
 b("C02-b3", "C02", PACK, "        self._fan_out_table = self._read_fan_out_table(8)\n        self.hash_size = self.object_format.oid_length\n        self._name_table_offset = 8 + 0x100 * 4\n        self._crc32_table_offset = self._name_table_offset + self.hash_size * len(self)\n        self._pack_offset_table_offset = self._crc32_table_offset + 4 * len(self)\n",
   "        self._fan_out_table = self._read_fan_out_table(8)\n        self.hash_size = self.object_format.oid_length\n        self._name_table_offset = 8 + 0x100 * 4\n        self._crc32_table_offset = self._name_table_offset + self.hash_size * len(self)\n        self._pack_offset_table_offset = self._crc32_table_offset + 8 * len(self)\n", "R02.1")
 b("C02-b4", "C02", PACK, "                self._data = None\n                raise\n", "                raise\n", "R02.3")
+b("C02-b5", "C02", PACK, "            base_offset = offset - unpacked.delta_base\n            self._pending_ofs[base_offset].append(offset)\n",
+  "            base_offset = offset + unpacked.delta_base\n            self._pending_ofs[base_offset].append(offset)\n", "R02.5")
+b("C02-b6", "C02", PACK, "            actual_num_records += 1\n            self.entries[unpacked.sha()] = (offset, crc32)\n            offset += object_size\n",
+  "            actual_num_records += 1\n            offset += object_size\n            self.entries[unpacked.sha()] = (offset, crc32)\n", "R02.5")
+b("C02-b7", "C02", PACK, "    for i, byte in enumerate(raw[1:]):\n        size += (byte & 0x7F) << ((i * 7) + 4)\n",
+  "    for i, byte in enumerate(raw[1:]):\n        size += (byte & 0x7F) << ((i * 7) + 3)\n", "R02.4")
+b("C02-b8", "C02", PACK, "        while delta_base:\n            delta_base -= 1\n            ret.insert(0, 0x80 | (delta_base & 0x7F))\n",
+  "        while delta_base:\n            ret.insert(0, 0x80 | (delta_base & 0x7F))\n", "R02.4")
+b("C02-b9", "C02", PACK, "                except KeyError:\n                    type_num = REF_DELTA\n                    assert isinstance(unpacked.delta_base, bytes)\n",
+  "                except KeyError:\n                    type_num = OFS_DELTA\n                    assert isinstance(unpacked.delta_base, bytes)\n", "R02.5")
+n("C02-n2", "C02", PACK, "    type_num = (raw[0] >> 4) & 0x07\n    size = raw[0] & 0x0F\n", "    type_num = (raw[0] >> 4) & 7\n    size = raw[0] & 15\n")
 n("C02-n1", "C02", PACK, "        checksum_size = self.hash_size\n        return bytes(self._contents[-checksum_size:])\n",
   "        checksum_size = self.hash_size\n        stored = bytes(self._contents[-checksum_size:])\n        return stored\n")
 
@@ -161,6 +172,12 @@ b("C13-b2", "C13", "dulwich/walk.py", "            reset_extra_commits = True\n 
   "            reset_extra_commits = True\n            if self._last is not None and commit.commit_time > self._last.commit_time + 86400:\n                continue\n            is_excluded = sha in self._excluded\n", "R13.2")
 n("C13-n1", "C13", "dulwich/graph.py", "        heappush(self.pq, (-dt, cmt))\n", "        heappush(self.pq, (-int(dt), cmt))\n")
 
+b("C13-b5", "C13", "dulwich/walk.py", "                    if self._last and n.commit_time >= self._last.commit_time:\n",
+  "                    if self._last and n.commit_time > self._last.commit_time:\n", "R13.4")
+b("C13-b6", "C13", "dulwich/walk.py", "        if self.until is not None and commit.commit_time > self.until:\n",
+  "        if self.until is not None and commit.commit_time >= self.until:\n", "R13.4")
+n("C13-n3", "C13", "dulwich/walk.py", "                    if self._last and n.commit_time >= self._last.commit_time:\n",
+  "                    if self._last is not None and n.commit_time >= self._last.commit_time:\n")
 # ------------------------------------------------------------------ C14
 b("C14-b1", "C14", OS_, "            if parents is None:\n                # Fall back to loading the object\n                cmt = store[e]\n                assert isinstance(cmt, Commit)\n                parents = get_parents(cmt)\n\n            queue.extend(parents)\n",
   "            if parents is None:\n                parents = []\n\n            queue.extend(parents)\n", "R14.1")
@@ -217,3 +234,37 @@ b("C20-b3", "C20", CFG, "        if escaped:\n            # e.g. an escaped quot
 b("C20-b4", "C20", CFG, "_STRIPPED_EDGE_CHARS = (b\" \", b\"\\t\", b\"\\n\", b\"\\r\", b\"\\x0b\", b\"\\x0c\")", "_STRIPPED_EDGE_CHARS = (b\" \", b\"\\t\")", "R20.2")
 b("C20-b5", "C20", CFG, "    ord(b\"t\"): ord(b\"\\t\"),\n", "    ord(b\"t\"): ord(b\" \"),\n", "R20.1")
 n("C20-n1", "C20", CFG, "    value = value.replace(b\"\\t\", b\"\\\\t\")\n    value = value.replace(b'\"', b'\\\\\"')\n", "    value = value.replace(b'\"', b'\\\\\"')\n    value = value.replace(b\"\\t\", b\"\\\\t\")\n")
+
+# ------------------------------------------------------------------ variants for the rules added after the seeded changes
+b("C01-b6", "C01", OBJ, "        if object_format is not None:\n            new_sha = object_format.new_hash()\n",
+  "        if object_format is not None and object_format != DEFAULT_OBJECT_FORMAT:\n            new_sha = object_format.new_hash()\n", "R01.2")
+b("C01-b7", "C01", OBJ, "            v.append(line[1:])\n", "            v.append(line.lstrip(b\" \"))\n", "R01.5")
+n("C01-n3", "C01", OBJ, "            v.append(line[1:])\n", "            v.append(line[len(b\" \"):])\n")
+b("C03-b6", "C03", PACK, "                copy_start += to_copy\n", "                copy_start = i1 + to_copy\n", "R03.5")
+b("C09-b6", "C09", OS_, "        for pack in self.packs:\n            if pack.name() == pack_name:\n", "        for pack in self._iter_cached_packs():\n            if pack.name() == pack_name:\n", "R09.2")
+b("C10-b5", "C10", OS_, "            if disappeared:\n                self._update_pack_cache()\n                rescanned = True\n                continue\n",
+  "            if disappeared:\n                self._update_pack_cache()\n                rescanned = True\n", "R10.4")
+b("C11-b5", "C11", IDX, "        new_flags = self.flags & ~FLAG_STAGEMASK\n", "        new_flags = self.flags & ~FLAG_NAMEMASK\n", "R11.2")
+b("C11-b6", "C11", IDX, "    while value > 0:\n        value -= 1\n        result.append(0x80 | (value & 0x7F))\n", "    while value > 0:\n        result.append(0x80 | (value & 0x7F))\n", "R11.5")
+b("C13-b3", "C13", "dulwich/graph.py", "        lcas = _remove_redundant(lookup_parents, lcas, shallows)\n    return lcas\n", "        pass\n    return lcas\n", "R13.3")
+b("C14-b6", "C14", "dulwich/commit_graph.py", "GRAPH_EXTRA_EDGES_NEEDED | (len(extra_edge_data) // 4)", "GRAPH_EXTRA_EDGES_NEEDED | len(extra_edge_data)", "R14.3")
+b("C14-b7", "C14", "dulwich/commit_graph.py", "                    if n == len(extra_parents) - 1:\n", "                    if n == len(entry.parents) - 1:\n", "R14.3")
+b("C13-b4", "C13", "dulwich/commit_graph.py", "                    if n == len(extra_parents) - 1:\n", "                    if n == len(entry.parents) - 1:\n", "R13.3")
+b("C16-b6", "C16", REFS, "        probe_ref = Ref(os.path.dirname(realname))\n", "        probe_ref = Ref(os.path.dirname(name))\n", "R16.7")
+b("C17-b5", "C17", IDX, "    common = 0\n    while (\n        common < len(safe_prefix)\n        and common < len(components)\n        and safe_prefix[common] == components[common]\n    ):\n        common += 1\n",
+  "    common = sum(1 for seen, part in zip(safe_prefix, components) if seen == part)\n", "R17.6")
+n("C17-n2", "C17", IDX, "    common = 0\n    while (\n        common < len(safe_prefix)\n        and common < len(components)\n        and safe_prefix[common] == components[common]\n    ):\n        common += 1\n",
+  "    common = 0\n    for seen, part in zip(safe_prefix, components):\n        if seen != part:\n            break\n        common += 1\n")
+b("C17-b6", "C17", IDX, "    if current_stat is not None and stat.S_ISDIR(current_stat.st_mode):\n        # Already a directory, just ensure .git file exists\n",
+  "    if current_stat is not None and os.path.isdir(full_path):\n        # Already a directory, just ensure .git file exists\n", "R17.5")
+b("C19-b6", "C19", "dulwich/protocol.py", "            pkt_contents = read(size - 4) if size > 4 else b\"\"\n", "            pkt_contents = read(size - 4)\n", "R19.2")
+n("C19-n2", "C19", "dulwich/protocol.py", "        while blob:\n            self.write_pkt_line(bytes(bytearray([channel])) + blob[:65515])\n            blob = blob[65515:]\n",
+  "        for start in range(0, len(blob), 65515):\n            self.write_pkt_line(bytes(bytearray([channel])) + blob[start : start + 65515])\n")
+n("C19-n3", "C19", "dulwich/protocol.py",
+  "        while len(buf) >= 4:\n            size = _parse_pkt_line_length(buf[:4])\n            if size == 0:\n                self.handle_pkt(None)\n                buf = buf[4:]\n            elif size < 4:\n                raise GitProtocolError(f\"Invalid pkt-line length: {size:04x}\")\n            elif size <= len(buf):\n                self.handle_pkt(buf[4:size])\n                buf = buf[size:]\n            else:\n                break\n        self._readahead = BytesIO()\n        self._readahead.write(buf)\n",
+  "        pos = 0\n        end = len(buf)\n        while end - pos >= 4:\n            size = _parse_pkt_line_length(buf[pos : pos + 4])\n            if size == 0:\n                self.handle_pkt(None)\n                pos += 4\n            elif size < 4:\n                raise GitProtocolError(f\"Invalid pkt-line length: {size:04x}\")\n            elif size <= end - pos:\n                self.handle_pkt(buf[pos + 4 : pos + size])\n                pos += size\n            else:\n                break\n        self._readahead = BytesIO()\n        self._readahead.write(buf[pos:])\n")
+b("C19-b7", "C19", "dulwich/protocol.py",
+  "        while len(buf) >= 4:\n            size = _parse_pkt_line_length(buf[:4])\n            if size == 0:\n                self.handle_pkt(None)\n                buf = buf[4:]\n            elif size < 4:\n                raise GitProtocolError(f\"Invalid pkt-line length: {size:04x}\")\n            elif size <= len(buf):\n                self.handle_pkt(buf[4:size])\n                buf = buf[size:]\n            else:\n                break\n        self._readahead = BytesIO()\n        self._readahead.write(buf)\n",
+  "        pos = 0\n        end = len(buf)\n        while end - pos >= 4:\n            size = _parse_pkt_line_length(buf[pos : pos + 4])\n            if size == 0:\n                self.handle_pkt(None)\n                pos += 4\n            elif size < 4:\n                raise GitProtocolError(f\"Invalid pkt-line length: {size:04x}\")\n            elif size <= end:\n                self.handle_pkt(buf[pos + 4 : pos + size])\n                pos += size\n            else:\n                break\n        self._readahead = BytesIO()\n        self._readahead.write(buf[pos:])\n", "R19.2")
+b("C20-b6", "C20", CFG, "        or b\"\\r\" in value\n", "", "R20.5")
+b("C20-b7", "C20", CFG, "            if lower_key(actual) == lower_k:\n                del self._real[i]\n", "            if lower_key(actual) == key:\n                del self._real[i]\n", "R20.6")
